@@ -96,7 +96,7 @@ func (m *MigrateEventInfo) unmarshal(pb *metaProto.MigrateEventInfo) {
 	m.opId = pb.GetOpId()
 	m.pt = &DbPtInfo{}
 	m.pt.Unmarshal(pb.GetPti())
-	m.preState = int(pb.GetCurrState())
+	m.preState = int(pb.GetPreState())
 	m.currState = int(pb.GetCurrState())
 	m.src = pb.GetSrc()
 	m.dest = pb.GetDest()
